@@ -86,6 +86,10 @@ pub struct Ctx {
     pub replay_mode: bool,
 }
 
+/// violations recorded by any Ctx of this process (harness code without a Ctx at hand can ask
+/// whether the run is already a failing one)
+pub static VIOLATIONS_SEEN: AtomicU64 = AtomicU64::new(0);
+
 impl Ctx {
     pub fn new(id: &str, tier: Tier) -> Ctx {
         let seed = std::env::var("VERIF_SEED")
@@ -123,6 +127,7 @@ impl Ctx {
     /// Records a violation. `class` identifies the failing input / call site class (used to match
     /// known findings and to group replays); `detail` is the replayable case.
     pub fn violation(&self, class: &str, detail: Value) {
+        VIOLATIONS_SEEN.fetch_add(1, Ordering::Relaxed);
         self.vio_count.fetch_add(1, Ordering::Relaxed);
         let mut g = self.vios.lock().unwrap();
         let e = g
